@@ -346,10 +346,15 @@ def check_release(case, rec):
                     return Mismatch("null_grad_ineffective", f"h{h}.grad set after null_grad()")
             elif act == "backward2":
                 w = np.arange(x.size, dtype=np.float64).reshape(x.shape) + 0.5
+                had_history = x.creator is not None
                 L2 = (x * w).sum()
                 try:
                     L2.backward()
-                except mg.errors.InvalidBackprop:
+                except Exception as e:  # noqa: BLE001
+                    if not isinstance(e, mg.errors.InvalidBackprop) and not had_history:
+                        return Mismatch("second_backward_raised", f"(h{h} * w).sum().backward() on a leaf without history: {fmt_exc(e)[:160]}")
+                    # (with an uncleared in-place history that shares tensors with the graph the first backward cleared,
+                    #  the pass is refused; which exception type that takes is C09's subject, not this property's)
                     # x still carries an (uncleared) in-place history that shares tensors with the graph cleared
                     # by the first backward: refusing loudly is allowed (C09); nothing to compare
                     rec_label = "backward2_refused"
